@@ -376,6 +376,11 @@ CORPUS = [
     # one channel with 9 resp. 10 bits, all signatures distinct and non-null (a long correlated chain): outcome indices above 255
     ("nine-bit-channel", {"tables": [[1] * 512, [3, 1]], "exps": [9, 2], "T": T_from_cols([1, 2, 3, 4, 5, 6, 7, 8, 9, 9], 4)}),
     ("ten-bit-channel", {"tables": [[2] + [1] * 1022 + [0]], "exps": [10], "T": T_from_cols([10, 9, 8, 7, 6, 5, 4, 3, 2, 1], 4)}),
+    # very rare errors (3e-6 and below) next to a null column: marginalising the null bits must keep them, however small
+    ("rare-next-to-null", {"tables": [[(1 << 20) - 3, 3], [3, 1]], "exps": [20, 2], "T": T_from_cols([1, 0], 1)}),
+    ("rare-pauli1-null-bit", {"tables": [[(1 << 20) - 4, 2, 1, 1], [5, 3]], "exps": [20, 3], "T": T_from_cols([2, 0, 1], 2)}),
+    ("rare-chain-null", {"tables": [[(1 << 22) - 7, 4, 2, 0, 1, 0, 0, 0], [1, 1]], "exps": [22, 1], "T": T_from_cols([1, 2, 0, 0], 2)}),
+    ("many-rare-one-parameter", {"tables": [[(1 << 18) - 1, 1]] * 2 + [[1, 1]], "exps": [18, 18, 1], "T": T_from_cols([1, 1, 0], 1)}),
     ("docstring-shape", {"tables": [[7, 1], [3, 1]], "exps": [3, 2], "T": [[1, 1]]}),   # two 1-bit channels, f0 = e0 ^ e1
     ("null-inside-4bit", {"tables": [[1] * 16, [1, 0, 0, 1]], "exps": [4, 1], "T": T_from_cols([0, 3, 0, 1, 1, 3], 2)}),
     ("subset-chain", {"tables": [[5, 3], [1, 3, 2, 2], [1, 1, 1, 1, 1, 1, 1, 1], [3, 1]], "exps": [3, 3, 3, 2],
